@@ -234,7 +234,7 @@ func (m *model) live(p int) []string {
 // ---------------------------------------------------------------------------
 
 type books struct {
-	mem    interface {
+	mem interface {
 		pstore.AddrBook
 		pstore.CertifiedAddrBook
 		Close() error
